@@ -165,7 +165,8 @@ def replay_vector(ctx: Ctx, v, ev, meta, pid):
 def record_random(ctx: Ctx, ev, meta, n, alphabet, pid):
     """Long / Unicode parameter values and values through the same paths, all judged by TLC."""
     rnd = random.Random(ctx.seed + 5)
-    uni = [233, 8364, 128512, 0x2019, 0xA0, 0x4e2d, 0x85]
+    from vf import hazards
+    uni = [233, 8364, 128512, 0x2019, 0xA0, 0x4e2d, 0x85] + hazards.ALL + [0x301, 0x30a]
     for i in range(n):
         def word(maxlen, allow_ctl=False):
             k = rnd.randint(0, maxlen)
